@@ -83,8 +83,8 @@ static void o_ptr(const char *name, int k, Node *p) {
    order, along `next` from `head`) and keeps it while it stays on some list; `links<k>=[id:data:prev:next,...]` prints the
    actual prev/next pointers through that table (`-` NULL, `?` a pointer to no listed node).  The Lean driver runs the
    pointer-level model (Model/PList.lean) alongside and numbers its nodes in the same way, so L3 compares the link
-   structure and the identity of the nodes.  After an operation that has no pointer-level model (sort*, filter_mut, mk_*,
-   iterator mutators) both sides renumber from scratch. */
+   structure and the identity of the nodes.  After an operation that has no pointer-level model (sort*, filter_mut, mk_*)
+   both sides renumber from scratch. */
 #define DCAP (1u << 19)
 typedef struct { Node *p; unsigned long id; unsigned long gen; } DEnt;
 static DEnt dtab[2][DCAP];
@@ -177,11 +177,11 @@ static void o_out(enum cc_stat st, void *out) { o_stat(st); if (st == CC_OK) o("
 static void do_op(Cmd *c) {
     int k = (int)kv_u64(c, "o", 0), from = (int)kv_u64(c, "from", 1), to = (int)kv_u64(c, "to", 1);
     uint64_t v = pos_u64(c, 0), idx = kv_u64(c, "idx", 0);
+    int noout = (int)kv_u64(c, "noout", 0);   /* CONVENTIONS Addendum 3: pass NULL for the optional out-pointer(s) */
     int is_it = !strncmp(c->op, "it_", 3) || !strncmp(c->op, "dit_", 4) || !strncmp(c->op, "zit_", 4);
     if (!is_it && !is_op(c, "observe")) it_kind = 0;
     {   /* operations without a pointer-level model: renumber the nodes afterwards (Driver/DList.lean: plUnsupported) */
-        static const char *un[] = { "sort", "sort_in_place", "filter_mut", "mk_sub", "mk_copy_shallow", "mk_copy_deep", "mk_filter",
-            "it_add", "it_remove", "it_replace", "dit_add", "dit_remove", "dit_replace", "zit_add", "zit_remove", "zit_replace", NULL };
+        static const char *un[] = { "sort", "sort_in_place", "filter_mut", "mk_sub", "mk_copy_shallow", "mk_copy_deep", "mk_filter", NULL };
         int k0 = (int)kv_u64(c, "o", 0), f0 = (int)kv_u64(c, "from", 1), t0 = (int)kv_u64(c, "to", 1);
         if (k0 >= 0 && k0 < NSLOT && f0 >= 0 && f0 < NSLOT && t0 >= 0 && t0 < NSLOT)
             for (int i = 0; un[i]; i++) if (is_op(c, un[i])) links_renumber = 1;
@@ -228,10 +228,10 @@ static void do_op(Cmd *c) {
             void *out1 = NULL, *out2 = NULL; enum cc_stat st;
             Node *last = want == 3 ? ((zit.l1_last && zit.l2_last) ? zit.l1_last : NULL) : it.last;
             if (!strcmp(sub, "next")) {
-                st = want == 1 ? cc_list_iter_next(&it, &out1) : want == 2 ? cc_list_diter_next(&it, &out1)
-                                                                           : cc_list_zip_iter_next(&zit, &out1, &out2);
+                st = want == 1 ? cc_list_iter_next(&it, noout ? NULL : &out1) : want == 2 ? cc_list_diter_next(&it, noout ? NULL : &out1)
+                                                                           : cc_list_zip_iter_next(&zit, noout ? NULL : &out1, noout ? NULL : &out2);
                 if (st == CC_OK) it_changed = 0;
-                o_stat(st); if (st == CC_OK) { o(" out=%llu", VAL(out1)); if (want == 3) o(" out2=%llu", VAL(out2)); } o(" ");
+                o_stat(st); if (st == CC_OK && !noout) { o(" out=%llu", VAL(out1)); if (want == 3) o(" out2=%llu", VAL(out2)); } o(" ");
             } else if (!strcmp(sub, "add")) {
                 if (!last || it_changed) { o("st=- contract "); goto done; }
                 st = want == 1 ? cc_list_iter_add(&it, PTR(v)) : want == 2 ? cc_list_diter_add(&it, PTR(v))
@@ -240,14 +240,14 @@ static void do_op(Cmd *c) {
                 o_stat(st); o(" ");
             } else if (!strcmp(sub, "remove")) {
                 if (last && it_changed) { o("st=- contract "); goto done; }
-                st = want == 1 ? cc_list_iter_remove(&it, &out1) : want == 2 ? cc_list_diter_remove(&it, &out1)
-                                                                             : cc_list_zip_iter_remove(&zit, &out1, &out2);
+                st = want == 1 ? cc_list_iter_remove(&it, noout ? NULL : &out1) : want == 2 ? cc_list_diter_remove(&it, noout ? NULL : &out1)
+                                                                             : cc_list_zip_iter_remove(&zit, noout ? NULL : &out1, noout ? NULL : &out2);
                 if (st == CC_OK) it_changed = 1;
-                o_stat(st); if (st == CC_OK) { o(" out=%llu", VAL(out1)); if (want == 3) o(" out2=%llu", VAL(out2)); } o(" ");
+                o_stat(st); if (st == CC_OK && !noout) { o(" out=%llu", VAL(out1)); if (want == 3) o(" out2=%llu", VAL(out2)); } o(" ");
             } else if (!strcmp(sub, "replace")) {
-                st = want == 1 ? cc_list_iter_replace(&it, PTR(v), &out1) : want == 2 ? cc_list_diter_replace(&it, PTR(v), &out1)
-                               : cc_list_zip_iter_replace(&zit, PTR(v), PTR(pos_u64(c, 1)), &out1, &out2);
-                o_stat(st); if (st == CC_OK) { o(" out=%llu", VAL(out1)); if (want == 3) o(" out2=%llu", VAL(out2)); } o(" ");
+                st = want == 1 ? cc_list_iter_replace(&it, PTR(v), noout ? NULL : &out1) : want == 2 ? cc_list_diter_replace(&it, PTR(v), noout ? NULL : &out1)
+                               : cc_list_zip_iter_replace(&zit, PTR(v), PTR(pos_u64(c, 1)), noout ? NULL : &out1, noout ? NULL : &out2);
+                o_stat(st); if (st == CC_OK && !noout) { o(" out=%llu", VAL(out1)); if (want == 3) o(" out2=%llu", VAL(out2)); } o(" ");
             } else if (!strcmp(sub, "index")) {
                 size_t ix = want == 1 ? cc_list_iter_index(&it) : want == 2 ? cc_list_diter_index(&it) : cc_list_zip_iter_index(&zit);
                 o("st=- out=%zu ", ix);
@@ -265,13 +265,13 @@ static void do_op(Cmd *c) {
         enum cc_stat st = is_op(c, "add_all") ? cc_list_add_all(l, L[from]) : is_op(c, "add_all_at") ? cc_list_add_all_at(l, L[from], idx)
                         : is_op(c, "splice") ? cc_list_splice(l, L[from]) : cc_list_splice_at(l, L[from], idx);
         o_stat(st); o(" ");
-    } else if (is_op(c, "remove")) { void *out = NULL; enum cc_stat st = cc_list_remove(l, PTR(v), &out); o_out(st, out); o(" ");
-    } else if (is_op(c, "remove_at")) { void *out = NULL; enum cc_stat st = cc_list_remove_at(l, idx, &out); o_out(st, out); o(" ");
-    } else if (is_op(c, "remove_first")) { void *out = NULL; enum cc_stat st = cc_list_remove_first(l, &out); o_out(st, out); o(" ");
-    } else if (is_op(c, "remove_last")) { void *out = NULL; enum cc_stat st = cc_list_remove_last(l, &out); o_out(st, out); o(" ");
+    } else if (is_op(c, "remove")) { void *out = NULL; enum cc_stat st = cc_list_remove(l, PTR(v), noout ? NULL : &out); if (noout) o_stat(st); else o_out(st, out); o(" ");
+    } else if (is_op(c, "remove_at")) { void *out = NULL; enum cc_stat st = cc_list_remove_at(l, idx, noout ? NULL : &out); if (noout) o_stat(st); else o_out(st, out); o(" ");
+    } else if (is_op(c, "remove_first")) { void *out = NULL; enum cc_stat st = cc_list_remove_first(l, noout ? NULL : &out); if (noout) o_stat(st); else o_out(st, out); o(" ");
+    } else if (is_op(c, "remove_last")) { void *out = NULL; enum cc_stat st = cc_list_remove_last(l, noout ? NULL : &out); if (noout) o_stat(st); else o_out(st, out); o(" ");
     } else if (is_op(c, "remove_all")) { o_stat(cc_list_remove_all(l)); o(" ");
     } else if (is_op(c, "remove_all_cb")) { o_stat(cc_list_remove_all_cb(l, cb_record)); o(" "); o_cb(); o(" ");
-    } else if (is_op(c, "replace_at")) { void *out = NULL; enum cc_stat st = cc_list_replace_at(l, PTR(v), idx, &out); o_out(st, out); o(" ");
+    } else if (is_op(c, "replace_at")) { void *out = NULL; enum cc_stat st = cc_list_replace_at(l, PTR(v), idx, noout ? NULL : &out); if (noout) o_stat(st); else o_out(st, out); o(" ");
     } else if (is_op(c, "get_first")) { void *out = NULL; enum cc_stat st = cc_list_get_first(l, &out); o_out(st, out); o(" ");
     } else if (is_op(c, "get_last")) { void *out = NULL; enum cc_stat st = cc_list_get_last(l, &out); o_out(st, out); o(" ");
     } else if (is_op(c, "get_at")) { void *out = NULL; enum cc_stat st = cc_list_get_at(l, idx, &out); o_out(st, out); o(" ");
